@@ -387,6 +387,52 @@ def m_is_ascii_upper(it, ctx, a, m, f):
     return in_range(deref(a[0]), 65, 90)
 
 
+@model(r'str::<impl str>::chars$')
+def m_chars(it, ctx, a, m, f):
+    return Iter(list(S(a[0]).cs))
+
+
+@model(r'<impl char>::to_ascii_lowercase$|<impl u8>::to_ascii_lowercase$')
+def m_char_lower(it, ctx, a, m, f):
+    return _lower(deref(a[0]))
+
+
+@model(r'<impl char>::to_ascii_uppercase$|<impl u8>::to_ascii_uppercase$')
+def m_char_upper(it, ctx, a, m, f):
+    c = deref(a[0])
+    if isinstance(c, int):
+        return c - 32 if 97 <= c <= 122 else c
+    return z3.If(z3.And(z3.UGE(c, 97), z3.ULE(c, 122)), c - 32, c)
+
+
+@model(r'^str::traits::<impl Index<(RangeFrom|RangeTo|Range)<usize>> for str>::index$|<str as Index<(RangeFrom|RangeTo|Range)<usize>>>::index$')
+def m_str_index(it, ctx, a, m, f):
+    s = S(a[0]); r = deref(a[1])
+    kind = m.group(1) or m.group(2)
+    # byte offsets: exact for ASCII prefixes; a non-char-boundary offset panics in the real code
+    def at(off):
+        k = 0; b = 0
+        while b < off:
+            if k >= len(s.cs):
+                raise Panic('str index out of range')
+            c = s.cs[k]
+            if isinstance(c, int):
+                b += 1 if c < 0x80 else 2 if c < 0x800 else 3 if c < 0x10000 else 4
+            else:
+                if not ctx.decide(z3.ULT(c, 0x80)):
+                    raise Unsupported('byte-indexing a string after a symbolic non-ASCII character')
+                b += 1
+            k += 1
+        if b != off:
+            raise Panic('byte index is not a char boundary')
+        return k
+    if kind == 'RangeFrom':
+        return SStr(s.cs[at(r.fields[0]):])
+    if kind == 'RangeTo':
+        return SStr(s.cs[:at(r.fields[0])])
+    return SStr(s.cs[at(r.fields[0]):at(r.fields[1])])
+
+
 @model(r'str::<impl str>::is_empty$|String::is_empty$|Atom::is_empty$')
 def m_str_is_empty(it, ctx, a, m, f):
     return len(S(a[0]).cs) == 0
@@ -431,6 +477,8 @@ def m_fmt_arg(it, ctx, a, m, f):
         v = deref(v.fields[0])
     if isinstance(v, SStr):
         return v
+    if '::<char>' in f:
+        return SStr([v])
     if isinstance(v, int) and not isinstance(v, bool):
         return SStr.of(str(v))
     raise Unsupported('format argument ' + repr(v)[:80])
